@@ -633,8 +633,8 @@ class ObjEval:
             self._memo_results[memo_key] = r
         return r
 
-    def _call_func(self, f: FuncInfo, args: list, kw: dict, owner: Optional[ClassInfo]):
-        ov = self.func_overrides.get(f.qualname)
+    def _call_func(self, f: FuncInfo, args: list, kw: dict, owner: Optional[ClassInfo], original: bool = False):
+        ov = None if original else self.func_overrides.get(f.qualname)
         if ov is not None:
             return ov(*args, **kw)
         self.depth += 1
